@@ -20,6 +20,19 @@ def handle (op : String) (args : List String) : Option String :=
     match replayLog du cs with
     | none => pure "ok"
     | some k => pure s!"reject {k}"
+  | "c04.lb" => do
+    -- previous consultation at e1 (wait 0), previous hand-over not before `lower`, next consultation at e2:
+    -- the model hands the tick over at some instant ≥ lower and consults at the clock value, so e2 ≥ lower
+    let ((e1, lower, e2), _) ← (do let a ← nat; let b ← nat; let c ← nat; pure (a, b, c)).run args
+    match run (init 1 1 0) [.ready, .advance e1, .paceWait 0, .wake, .advance (lower - e1), .tick] with
+    | some s =>
+      -- the next consultation is logged at the model's clock, which cannot run backwards
+      if s.now ≤ e2 then
+        match step { s with now := e2 } (.paceWait 0) with
+        | some s2 => if (s2.paceLog.head?.map (·.1)) == some e2 then pure "ok" else pure "reject"
+        | none => pure "reject"
+      else pure "reject"
+    | none => pure "reject"
   | _ => none
 
 end Vegeta.Driver.C04
